@@ -505,7 +505,8 @@ fn gen_topo(rng: &mut Rng, small: bool) -> Topo {
     let n_core = if small { rng.range(1, 2) } else { rng.range(1, 4) } as usize;
     let n_non = if small { rng.range(1, 4) } else { rng.range(2, 9) } as usize;
     let mut next_if: Vec<u16> = vec![];
-    let mtus = [1280u32, 1400, 1472, 1500, 2000, 9000];
+    // AsEntry::mtu is a u32: values beyond u16::MAX are legal on the wire (path MTU is a u16)
+    let mtus = [1280u32, 1400, 1472, 1500, 2000, 9000, 1280, 1400, 1472, 1500, 2000, 9000, 9000, 1500, 1400, 65535, 65536, 65536 + 1400, 131072 + 1300];
     for i in 0..n_core + n_non {
         let isd = if i < n_core { 1 + (i as u64 % 2) } else { 1 + rng.below(2) };
         t.ases.push(TAs { ia: ia(isd, 0xff00_0000_0100 + i as u64), core: i < n_core, mtu: *rng.pick(&mtus) });
@@ -670,6 +671,172 @@ fn request(t: &std::rc::Rc<Topo>, b: &Beacons, src: u64, dst: u64, rng: &mut Rng
         noncores.retain(|_| rng.chance(3, 4));
     }
     Case { kind: kind.into(), src, dst, cores, noncores, topo: Some(t.clone()) }
+}
+
+/// all beacons of the topology, including non-core segments whose leaf is neither src nor dst (a cache, or a
+/// control service answering more than it was asked): the SCION rules still only allow up? core? down?
+fn request_all(t: &std::rc::Rc<Topo>, b: &Beacons, src: u64, dst: u64, rng: &mut Rng, kind: &str) -> Case {
+    let mut noncores: Vec<MSeg> = b.noncores.clone();
+    // keep every segment of src / dst, thin the foreign ones to bound the search
+    let mut foreign = 0;
+    noncores.retain(|s| {
+        let own = s.ents.last().map(|e| e.ia == src || e.ia == dst).unwrap_or(false);
+        if !own {
+            foreign += 1;
+        }
+        own || foreign <= 24
+    });
+    rng.shuffle(&mut noncores);
+    Case { kind: kind.into(), src, dst, cores: b.cores.clone(), noncores, topo: Some(t.clone()) }
+}
+
+/// "long" stream: loop-free paths at the limits of the path header.  A chain topology
+/// src = U[a-1] .. U[0] (= K[0]) == K[1] == .. K[b-1] (= D[0]) .. D[c-1] = dst with `a` / `b` / `c` ASes on the up /
+/// core / down part (0 = part absent), all ASes distinct, all interface ids distinct and non-zero; exactly one
+/// segment per part, so that the offered path has a + b + c hop fields.
+fn chain_case(rng: &mut Rng, a: usize, b: usize, c: usize) -> Case {
+    let mut t = Topo { name: format!("chain-{a}-{b}-{c}"), ..Default::default() };
+    let mtus = [1280u32, 1400, 1472, 1500, 2000, 9000];
+    let mut next_if: Vec<u16> = vec![];
+    let mut new_as = |t: &mut Topo, rng: &mut Rng, core: bool| -> usize {
+        let i = t.ases.len();
+        t.ases.push(TAs { ia: ia(1, 0xff00_0000_4000 + i as u64), core, mtu: *rng.pick(&mtus) });
+        next_if.push(rng.range(1, 30) as u16);
+        i
+    };
+    // the AS indices of the three parts; consecutive parts share their end AS
+    let nb = b.max(1);
+    let ks: Vec<usize> = (0..nb).map(|_| new_as(&mut t, rng, true)).collect();
+    let mut us = vec![ks[0]];
+    for _ in 1..a {
+        us.push(new_as(&mut t, rng, false));
+    }
+    let mut ds = vec![ks[nb - 1]];
+    for _ in 1..c {
+        ds.push(new_as(&mut t, rng, false));
+    }
+    let mut link = |t: &mut Topo, rng: &mut Rng, x: usize, y: usize, kind: LK| {
+        let (xi, yi) = (next_if[x], next_if[y]);
+        next_if[x] += rng.range(1, 3) as u16;
+        next_if[y] += rng.range(1, 3) as u16;
+        t.links.push(TLink { a: x, a_if: xi, b: y, b_if: yi, kind, mtu: *rng.pick(&[1280u16, 1350, 1400, 1472, 1500, 4000]) });
+    };
+    for w in ks.windows(2) {
+        link(&mut t, rng, w[0], w[1], LK::Core);
+    }
+    for w in us.windows(2) {
+        link(&mut t, rng, w[0], w[1], LK::Child);
+    }
+    for w in ds.windows(2) {
+        link(&mut t, rng, w[0], w[1], LK::Child);
+    }
+    // a beacon along a chain of ASes (construction order)
+    let seg = |t: &Topo, rng: &mut Rng, chain: &[usize]| -> MSeg {
+        let mut path = vec![(chain[0], 0u16, 0u16)];
+        let mut egress = vec![];
+        for w in chain.windows(2) {
+            let l = t.links.iter().find(|l| (l.a == w[0] && l.b == w[1]) || (l.a == w[1] && l.b == w[0])).unwrap();
+            let (eg, ing) = if l.a == w[0] { (l.a_if, l.b_if) } else { (l.b_if, l.a_if) };
+            egress.push(eg);
+            path.push((w[1], ing, l.mtu));
+        }
+        egress.push(0);
+        mk_seg(t, rng, &path, &egress, false, false)
+    };
+    let mut cores = vec![];
+    let mut noncores = vec![];
+    if b >= 2 {
+        let mut k = ks.clone();
+        if rng.chance(1, 2) {
+            k.reverse();
+        }
+        cores.push(seg(&t, rng, &k));
+    }
+    if a >= 2 {
+        noncores.push(seg(&t, rng, &us));
+    }
+    if c >= 2 {
+        noncores.push(seg(&t, rng, &ds));
+    }
+    let src = t.ases[*us.last().unwrap()].ia;
+    let dst = t.ases[*ds.last().unwrap()].ia;
+    Case { kind: "long".into(), src, dst, cores, noncores, topo: Some(std::rc::Rc::new(t)) }
+}
+
+/// (a, b, c) of the long stream: around 63 hop fields per segment and 64 per path
+fn chain_shapes(rng: &mut Rng, thorough: bool) -> Vec<(usize, usize, usize)> {
+    let mut v = vec![
+        // one segment: 62, 63 fit, 64, 65 do not (SegLen has 6 bits)
+        (62, 0, 0), (63, 0, 0), (64, 0, 0), (65, 0, 0), (0, 0, 63), (0, 0, 64), (0, 63, 0), (0, 64, 0),
+        // two segments joined at the core: 64 hop fields fit, 65 do not (CurrHF has 6 bits)
+        (32, 0, 32), (33, 0, 32), (62, 0, 2), (63, 0, 2), (2, 0, 63), (2, 62, 0), (0, 62, 3),
+        // three segments
+        (22, 22, 20), (22, 22, 21), (22, 22, 22), (2, 60, 2), (2, 61, 2), (2, 63, 2), (30, 4, 30), (30, 5, 30),
+    ];
+    let extra = if thorough { 60 } else { 6 };
+    for _ in 0..extra {
+        // random split of 62..66 hop fields over the parts
+        let total = rng.range(62, 66) as usize;
+        let a = rng.range(2, total as u64 - 4) as usize;
+        let rest = total - a;
+        if rng.chance(1, 2) {
+            v.push((a, 0, rest));
+        } else {
+            let bb = rng.range(2, rest as u64 - 2) as usize;
+            v.push((a, bb, rest - bb));
+        }
+    }
+    v
+}
+
+/// segments that cannot contribute a valid path, whatever else is given (C19: "are ignored without affecting
+/// paths built from the others"): no AS entries / one AS entry; ASes that occur nowhere else; from src to dst
+/// but without any interface id; from src to dst over more ASes than a segment of a path can hold
+fn garbage(rng: &mut Rng, c: &Case) -> (Case, &'static str) {
+    let mut g = c.clone();
+    g.topo = None;
+    let fresh = |k: u64| ia(7, 0xff00_0000_9000 + k);
+    let ent = |a: u64, ing: u16, eg: u16| MEnt { ia: a, mtu: 1500, imtu: if ing == 0 { 0 } else { 1400 }, hop: MHop { exp: 255, ing, eg, mac: [3; 6] }, peers: vec![] };
+    let (x, y) = if rng.chance(1, 2) { (c.src, c.dst) } else { (c.dst, c.src) };
+    // a segment without interface ids contributes hop fields but no interface: together with *another* malformed
+    // segment (e.g. a single-AS core segment with an interface id) the code builds a path from it, so it is
+    // "garbage whatever else is given" only next to a well-formed set
+    let kind = match rng.below(5) {
+        3 if c.topo.is_none() => 2,
+        k => k,
+    };
+    let (seg, tag) = match kind {
+        0 => (MSeg { ts: 5, segid: 5, ents: vec![] }, "garbage empty"),
+        1 => (MSeg { ts: 5, segid: 5, ents: vec![ent(fresh(0), 0, 0)] }, "garbage single foreign AS"),
+        2 => {
+            let n = rng.range(2, 5);
+            let ents = (0..n).map(|k| ent(fresh(k), if k == 0 { 0 } else { 10 + k as u16 }, if k + 1 == n { 0 } else { 20 + k as u16 })).collect();
+            (MSeg { ts: 1_800_000_000, segid: 9, ents }, "garbage foreign ASes")
+        }
+        3 => {
+            let n = rng.range(2, 4);
+            let ents = (0..n).map(|k| ent(if k == 0 { x } else if k + 1 == n { y } else { fresh(k) }, 0, 0)).collect();
+            (MSeg { ts: 1_800_000_000, segid: 9, ents }, "garbage src-dst without interface ids")
+        }
+        _ => {
+            let n = *rng.pick(&[64u64, 65, 70, 100]);
+            let ents = (0..n).map(|k| ent(if k == 0 { x } else if k + 1 == n { y } else { fresh(k) }, if k == 0 { 0 } else { 100 + k as u16 }, if k + 1 == n { 0 } else { 300 + k as u16 })).collect();
+            (MSeg { ts: 1_800_000_000, segid: 9, ents }, "garbage src-dst over more than 63 ASes")
+        }
+    };
+    let n_more = rng.below(2);
+    for k in 0..=n_more {
+        let mut s2 = seg.clone();
+        s2.segid = s2.segid.wrapping_add(k as u16);
+        if rng.chance(1, 2) {
+            let at = rng.below(g.cores.len() as u64 + 1) as usize;
+            g.cores.insert(at, s2);
+        } else {
+            let at = rng.below(g.noncores.len() as u64 + 1) as usize;
+            g.noncores.insert(at, s2);
+        }
+    }
+    (g, tag)
 }
 
 // ------------------------------------------------------------------------------------------------
@@ -981,9 +1148,22 @@ enum Node {
     /// crossing the peering link from (ia, if) to (ia, if)
     Link(u64, u16, u64, u16),
 }
+/// how a piece uses its segment: a non-core segment travelled from its leaf towards the core is an
+/// up segment, towards its leaf a down segment; SCION paths are up? core? down? (valley free)
+#[derive(Clone, Copy, Debug, PartialEq, Eq, PartialOrd, Ord)]
+enum Use {
+    Up,
+    Core,
+    Down,
+}
+/// SCION header limits (specification, not read from the code): SegLen is a 6 bit field, CurrHF is a 6 bit field
+const SPEC_MAX_SEG_HOPS: usize = 63;
+const SPEC_MAX_PATH_HOPS: usize = 64;
 #[derive(Clone, Debug)]
 struct Piece {
-    core: bool,
+    usage: Use,
+    /// hop fields the piece puts into the path
+    nhops: usize,
     from: Node,
     to: Node,
     ifs: Vec<(u64, u16)>,
@@ -1018,40 +1198,43 @@ fn pieces(s: &MSeg, core: bool) -> Vec<Piece> {
         if l >= 2 {
             let f = s.ents[0].ia;
             let v = up_ifs(0, None);
-            out.push(Piece { core, from: Node::As(leaf), to: Node::As(f), ifs: v.clone(), ases: ases(0) });
-            out.push(Piece { core, from: Node::As(f), to: Node::As(leaf), ifs: v.into_iter().rev().collect(), ases: ases(0).into_iter().rev().collect() });
+            out.push(Piece { usage: Use::Core, nhops: l, from: Node::As(leaf), to: Node::As(f), ifs: v.clone(), ases: ases(0) });
+            out.push(Piece { usage: Use::Core, nhops: l, from: Node::As(f), to: Node::As(leaf), ifs: v.into_iter().rev().collect(), ases: ases(0).into_iter().rev().collect() });
         }
         return out;
     }
     for c in 0..l {
         if c < l - 1 {
             let v = up_ifs(c, None);
-            out.push(Piece { core, from: Node::As(leaf), to: Node::As(s.ents[c].ia), ifs: v.clone(), ases: ases(c) });
-            out.push(Piece { core, from: Node::As(s.ents[c].ia), to: Node::As(leaf), ifs: v.into_iter().rev().collect(), ases: ases(c).into_iter().rev().collect() });
+            out.push(Piece { usage: Use::Up, nhops: l - c, from: Node::As(leaf), to: Node::As(s.ents[c].ia), ifs: v.clone(), ases: ases(c) });
+            out.push(Piece { usage: Use::Down, nhops: l - c, from: Node::As(s.ents[c].ia), to: Node::As(leaf), ifs: v.into_iter().rev().collect(), ases: ases(c).into_iter().rev().collect() });
         }
         for p in &s.ents[c].peers {
             let v = up_ifs(c, Some(p));
             let e = &s.ents[c];
-            out.push(Piece { core, from: Node::As(leaf), to: Node::Link(e.ia, p.hop.ing, p.peer, p.pif), ifs: v.clone(), ases: ases(c) });
-            out.push(Piece { core, from: Node::Link(p.peer, p.pif, e.ia, p.hop.ing), to: Node::As(leaf), ifs: v.into_iter().rev().collect(), ases: ases(c).into_iter().rev().collect() });
+            out.push(Piece { usage: Use::Up, nhops: l - c, from: Node::As(leaf), to: Node::Link(e.ia, p.hop.ing, p.peer, p.pif), ifs: v.clone(), ases: ases(c) });
+            out.push(Piece { usage: Use::Down, nhops: l - c, from: Node::Link(p.peer, p.pif, e.ia, p.hop.ing), to: Node::As(leaf), ifs: v.into_iter().rev().collect(), ases: ases(c).into_iter().rev().collect() });
         }
     }
     out
 }
-/// interface lists of all loop-free end-to-end combinations (up?·core?·down? incl. shortcut, on-path, peering)
+/// interface lists of all loop-free, encodable end-to-end combinations (up?·core?·down? incl. shortcut, on-path,
+/// peering; a non-core segment is an up segment when travelled from its leaf, a down segment when travelled
+/// towards it, whatever src and dst are)
 fn enumerate_spec(c: &Case) -> BTreeSet<Vec<(u64, u16)>> {
     let mut res = BTreeSet::new();
     if c.src == c.dst {
         return res;
     }
     let ps: Vec<Piece> = c.cores.iter().flat_map(|s| pieces(s, true)).chain(c.noncores.iter().flat_map(|s| pieces(s, false))).collect();
-    let kinds_ok = |k: &[bool]| match k {
-        [_] => true,
-        [a, b] => !(*a && *b),
-        [a, b, c] => !*a && *b && !*c,
-        _ => false,
-    };
+    // up? core? down?: the uses are strictly ordered Up < Core < Down (no segment after a down segment, no
+    // up segment after another segment, at most one core segment)
+    let kinds_ok = |k: &[Use]| k.windows(2).all(|w| w[0] < w[1]);
     let loop_free = |chain: &[&Piece]| -> bool {
+        // the combination must fit the SCION path header
+        if chain.iter().any(|p| p.nhops > SPEC_MAX_SEG_HOPS) || chain.iter().map(|p| p.nhops).sum::<usize>() > SPEC_MAX_PATH_HOPS {
+            return false;
+        }
         // AS sequence: consecutive pieces share the joint AS unless joined over a peering link
         let mut seq: Vec<u64> = vec![];
         for (k, p) in chain.iter().enumerate() {
@@ -1070,14 +1253,14 @@ fn enumerate_spec(c: &Case) -> BTreeSet<Vec<(u64, u16)>> {
             }
             continue;
         }
-        for b in ps.iter().filter(|p| p.from == a.to && kinds_ok(&[a.core, p.core])) {
+        for b in ps.iter().filter(|p| p.from == a.to && kinds_ok(&[a.usage, p.usage])) {
             if b.to == dst {
                 if loop_free(&[a, b]) {
                     res.insert(a.ifs.iter().chain(b.ifs.iter()).cloned().collect());
                 }
                 continue;
             }
-            for d in ps.iter().filter(|p| p.from == b.to && p.to == dst && kinds_ok(&[a.core, b.core, p.core])) {
+            for d in ps.iter().filter(|p| p.from == b.to && p.to == dst && kinds_ok(&[a.usage, b.usage, p.usage])) {
                 if loop_free(&[a, b, d]) {
                     res.insert(a.ifs.iter().chain(b.ifs.iter()).chain(d.ifs.iter()).cloned().collect());
                 }
@@ -1437,9 +1620,18 @@ fn main() {
             let mut pairs: Vec<(usize, usize)> = (0..n).flat_map(|i| (0..n).map(move |j| (i, j))).collect();
             rng.shuffle(&mut pairs);
             let take = if k % 3 == 0 { pairs.len() } else { pairs.len().min(12) };
-            for (i, j) in pairs.into_iter().take(take) {
+            for (n_p, (i, j)) in pairs.into_iter().take(take).enumerate() {
                 valid.push(request(&t, &b, t.ases[i].ia, t.ases[j].ia, &mut rng, if k % 3 == 0 { "topo-small-all-pairs" } else { "topo-random" }));
+                // the same request with every beacon of the topology (foreign leaves): valley-freedom is decided
+                // by the topology oracle and the enumerator
+                if n_p < 5 {
+                    valid.push(request_all(&t, &b, t.ases[i].ia, t.ases[j].ia, &mut rng, "topo-foreign-leaf"));
+                }
             }
+        }
+        // long loop-free paths at the header limits
+        for (a, b, c) in chain_shapes(&mut rng, thorough) {
+            valid.push(chain_case(&mut rng, a, b, c));
         }
         // twins of sets that offer a peering path (plus some others)
         {
@@ -1478,8 +1670,10 @@ fn main() {
                 cases.push(soup(&mut rng));
             }
             rng.shuffle(&mut valid);
-            valid.truncate(keep_valid);
-            cases.extend(valid);
+            let (long, mut rest): (Vec<Case>, Vec<Case>) = valid.into_iter().partition(|c| c.kind == "long");
+            rest.truncate(keep_valid);
+            cases.extend(long);
+            cases.extend(rest);
         } else {
             // permuted / duplicated variants are produced on the fly below
             cases.extend(valid);
@@ -1517,6 +1711,15 @@ fn main() {
         }
         if c.cores.iter().chain(c.noncores.iter()).any(|s| s.ents.len() > 63) {
             rep.hit("has segment > 63 hops");
+        }
+        if c.kind == "long" {
+            if let Some(t) = &c.topo {
+                let total: usize = c.cores.iter().chain(c.noncores.iter()).map(|s| s.ents.len()).sum();
+                rep.hit(&format!("long {}: {} hop fields, {} path(s)", t.name, total, o.n_paths));
+            }
+        }
+        if c.topo.as_ref().map(|t| t.ases.iter().any(|a| a.mtu > 65535)).unwrap_or(false) && o.n_paths > 0 {
+            rep.hit("topology with an AS MTU > u16::MAX, paths offered");
         }
         max_us = max_us.max(o.micros);
         max_cands = max_cands.max(o.cands);
@@ -1557,6 +1760,20 @@ fn main() {
             rep.spec_fail(key, &what2, json!({"case": case_json(&small), "impl": o2.imp}));
         }
 
+        // ---- segments that cannot contribute are ignored (C19; exact equality of the whole result) ----------
+        if prop == "C19" && args.replay.is_none() && !o.panicked && !o.tie && c.src != c.dst && rep.traces % 2 == 0 {
+            let (g, tag) = garbage(&mut rng, c);
+            let r2 = impl_string(&run_impl(&g));
+            rep.evaluations += 1;
+            rep.hit(tag);
+            if o.n_paths > 0 {
+                rep.hit("garbage added to a set that offers paths");
+            }
+            if r2 != o.imp {
+                rep.spec_fail("C19:garbage-ignored", &format!("adding segments that cannot contribute a path ({tag}) changed the result"), json!({"case": case_json(c), "with_garbage": case_json(&g), "impl": o.imp, "impl_with_garbage": r2}));
+            }
+        }
+
         // ---- order independence / determinism (both properties; exact equality) -------------------------
         if args.replay.is_none() && !o.panicked && (prop == "C04" || rep.traces % 4 == 0) && !o.tie {
             let mut v = c.clone();
@@ -1584,6 +1801,7 @@ fn main() {
             }
         }
     }
+    // (garbage oracle is inside the loop above)
     // ---- replay of the Lean witness `order_dependent_with_equal_ids` on the real code -------------------------
     // a segment given together with a copy that has the same hop interfaces (same PathSegment::id()) but other
     // MACs: the sort of get_paths ties, the surviving path depends on hash-map iteration order (fresh RandomState
